@@ -1,4 +1,5 @@
 import QipVerif.Lemmas.SchedGate
+import QipVerif.Lemmas.SchedC
 import QipVerif.Lemmas.SchedOracle
 import Mathlib.Algebra.Group.Opposite
 import Mathlib.Algebra.BigOperators.Group.List.Lemmas
@@ -221,5 +222,50 @@ theorem comm_rule_abs_table : ∀ (ca cb : NameCls) (same cne ceq teq act bct : 
 
 example : commRules ⟨"QASMU", [0], [], 1⟩ ⟨"QASMU", [0], [], 1⟩ = true ∧
     commRules ⟨"FREDKIN", [1, 2], [0], 1⟩ ⟨"FREDKIN", [2, 3], [0], 1⟩ = true := by decide +kernel
+
+/-! ## (e′) the same over ℂ: `H1` discharged
+
+`M = Matrix (St N) (St N) ℂ` (operators on the `N`-qubit register, `Lemmas/EmbedAlg.lean`).  The gates
+are interpreted by position; the only requirement is that the operator of gate `i` acts on the used
+qubits of instruction `i` only (`SupportedOn`: it is `Tg.embed` of some compact matrix along some
+placement into `used_qubits` — any qubit order, any parameters).  Then `H1` holds
+(`Tg.embed_comm_of_disjoint`, `Lemmas/EmbedPerm.lean`, `Lemmas/SchedC.lean`), and only `H2` is left —
+which is false for the real gate library (`C05_counterexample_den`), hence still a hypothesis. -/
+section denC
+open Matrix
+
+/-- **schedule_den_C** (circuit order: first gate = leftmost factor). -/
+theorem schedule_den_C (N : ℕ) (hO : ∀ r l, (O2 r l).Perm l) (g : Nat → Matrix (St N) (St N) ℂ)
+    (hsupp : ∀ i, i < ns.length → SupportedOn (g i) (usedSet N (getIns ns i)))
+    (H2 : ∀ i j, i < ns.length → j < ns.length → shareIdx ns i j = true →
+      commRules (getIns ns i) (getIns ns j) = true → Commute (g i) (g j)) :
+    ((cyclesGen alap allowPerm ns O2).flatten.map g).prod = ((List.range ns.length).map g).prod :=
+  schedule_den_partial alap allowPerm ns O2 hO g
+    (fun i j hi hj hs => commute_of_share_false (hsupp i hi) (hsupp j hj) hs) H2
+
+/-- **schedule_den_C_rev** (matrix order: first gate = rightmost factor, `U = U_n ⋯ U_1`): the
+scheduled circuit is the same operator as the original circuit. -/
+theorem schedule_den_C_rev (N : ℕ) (hO : ∀ r l, (O2 r l).Perm l) (g : Nat → Matrix (St N) (St N) ℂ)
+    (hsupp : ∀ i, i < ns.length → SupportedOn (g i) (usedSet N (getIns ns i)))
+    (H2 : ∀ i j, i < ns.length → j < ns.length → shareIdx ns i j = true →
+      commRules (getIns ns i) (getIns ns j) = true → Commute (g i) (g j)) :
+    (((cyclesGen alap allowPerm ns O2).flatten.map g).reverse).prod =
+      (((List.range ns.length).map g).reverse).prod :=
+  schedule_den_partial_rev alap allowPerm ns O2 hO g
+    (fun i j hi hj hs => commute_of_share_false (hsupp i hi) (hsupp j hj) hs) H2
+
+end denC
+
+-- the support hypothesis for a CNOT(control 1, target 0) and an X on qubit 2 of a 3-qubit register,
+-- whatever the two compact matrices are; the two instructions share no qubit
+example (U : Matrix (St 2) (St 2) ℂ) (V : Matrix (St 1) (St 1) ℂ) :
+    SupportedOn ((Tg.pair (1 : Fin 3) 0 (by decide)).embed U) (usedSet 3 ⟨"CNOT", [0], [1], 1⟩) ∧
+    SupportedOn ((⟨![2], fun a b _ => Subsingleton.elim a b⟩ : Tg 1 3).embed V) (usedSet 3 ⟨"X", [2], [], 1⟩) ∧
+    share ⟨"CNOT", [0], [1], 1⟩ ⟨"X", [2], [], 1⟩ = false := by
+  refine ⟨SupportedOn.embed _ _ ?_, SupportedOn.embed _ _ ?_, by decide⟩
+  · rintro _ ⟨p, rfl⟩
+    fin_cases p <;> (show _ ∈ Ins.used _; decide)
+  · rintro _ ⟨p, rfl⟩
+    fin_cases p; (show _ ∈ Ins.used _; decide)
 
 end QipVerif.C05
